@@ -55,7 +55,31 @@ inductive Op
   | addPicture (slide : Nat) (existing : Option Nat) (new : Nat) (ext : Str)
   /-- slide part, identities of the new chart part and of its workbook part -/
   | addChart (slide chart xlsx : Nat)
+  /-- `slide.notes_slide` on a slide that has none: presentation part, slide part, the notes master the presentation part is
+      related to (if any), identities of a new notes master, its theme and the new notes slide part -/
+  | addNotes (pres slide : Nat) (master : Option Nat) (newMaster newTheme newNotes : Nat)
 deriving Repr
+
+def masterName : Str := "/ppt/notesMasters/notesMaster1.xml".toList
+def notesPre : Str := "/ppt/notesSlides/notesSlide".toList
+def themePre : Str := "/ppt/theme/theme".toList
+def xmlPost : Str := ".xml".toList
+
+/-- `SlidePart.notes_slide` → `NotesSlidePart.new`: the notes master is the one the presentation part is related to, else
+    `NotesMasterPart.create_default` (a part under the FIXED name notesMaster1.xml and a theme part under `next_partname`,
+    master → theme under rId1, presentation → master under `_next_rId`); then the notes slide part under `next_partname`,
+    related to the master (rId1) and to the slide (rId2), and the slide related to it under `_next_rId`.  None of these
+    relationships is named by an `r:id` in any part's XML. -/
+def predictNotes (s : St) (pres slide : Nat) (master : Option Nat) (nm nt nn : Nat) : List Delta :=
+  match master with
+  | some m =>
+      [.addPart nn (nextName s notesPre xmlPost), .addRel nn (rIdStr 1) (.int m), .addRel nn (rIdStr 2) (.int slide),
+       .addRel slide (nextRId s slide) (.int nn)]
+  | none =>
+      [.addPart nm masterName, .addPart nt (nextName s themePre xmlPost), .addRel nm (rIdStr 1) (.int nt),
+       .addRel pres (nextRId s pres) (.int nm),
+       .addPart nn (nextName s notesPre xmlPost), .addRel nn (rIdStr 1) (.int nm), .addRel nn (rIdStr 2) (.int slide),
+       .addRel slide (nextRId s slide) (.int nn)]
 
 def predict (s : St) : Op → List Delta
   | .addSlide pres layout new listed =>
@@ -74,6 +98,7 @@ def predict (s : St) : Op → List Delta
       let xn := nextName s "/ppt/embeddings/Microsoft_Excel_Sheet".toList ".xlsx".toList
       [.addPart chart cn, .addPart xlsx xn, .addRel chart (rIdStr 1) (.int xlsx), .addRef chart (rIdStr 1),
        .addRel slide k (.int chart), .addRef slide k]
+  | .addNotes pres slide master nm nt nn => predictNotes s pres slide master nm nt nn
 
 /-- the graph after the call (`none`: some predicted delta is ill-formed - excluded by `predict_ok`) -/
 def step (s : St) (op : Op) : Option St :=
